@@ -411,7 +411,9 @@ Inductive op :=
 | TimerFire                                                       (* advance the clock to the earliest deadline; TimerQueue::handleRead *)
 | RunPending | RunOne                                             (* one doPendingFunctors batch (ends the iteration) / one functor *)
 | Down                                                            (* the peer closes the established connection (read returns 0) *)
-| UserHold | UserRelease.                                         (* user code copies / drops a TcpConnectionPtr *)
+| UserHold | UserRelease                                          (* user code copies / drops a TcpConnectionPtr *)
+| LoopEnd.                                                        (* the loop has stopped for good and the EventLoop is destroyed (scope exit after
+                                                                     loop() returned / quit()), after the TcpClient: EventLoop::~EventLoop *)
 
 Inductive res := Ok (s : st) (ev : list event) | Rejected | Fault.
 
@@ -446,6 +448,23 @@ Definition destroy_rest (s : st) (snap : option nat * bool) (on_loop : bool) : M
         else (enq s (FAddHack (now s + 1000)), [EvStopReq])
     end in
   Some (set_dsnap (set_alive (set_connection s None) false) None, ev).
+
+(* EventLoop::~EventLoop once the loop has stopped for good (EventLoop.cc:93-101 and the member destructors in reverse
+   order of declaration, EventLoop.h:140-161): pendingFunctors_ is destroyed UNRUN (loop() has no drain after
+   `while (!quit_)`), then timerQueue_: TimerQueue::~TimerQueue (TimerQueue.cc:104-114) deletes every Timer without running
+   it.  What the functors and timer callbacks had bound dies with them:
+   - the TcpConnectionPtr of connectDestroyed / forceCloseInLoop / setCloseCallback: where it was the last reference
+     ~TcpConnection runs: assert(state_ == kDisconnected), ~Channel assert(!addedToLoop_), ~Socket closes (= `gc`, run by `finish`);
+   - the ConnectorPtr of the retry timer / of ~TcpClient's 1 s timer: the client is gone (guard of the op), so this is the last
+     owner: Connector::~Connector, assert(!channel_) (the check below; `settle`, run by `finish`, then marks it dead).
+       (on reachable states a dead Connector has no channel, Kinv.k_kdead, so the check does not depend on k_dead)
+   - functors bound to a raw pointer (startInLoop / stopInLoop / resetChannel, shutdownInLoop) just vanish. *)
+Definition loop_end (s : st) : M :=
+  let s := set_timers (set_pending s []) [] in
+  match k_chan s with
+  | Some _ => None                                   (* ~Connector: assert(!channel_) *)
+  | None => ret s
+  end.
 
 Definition step_core (s : st) (o : op) : option M :=      (* outer None = Rejected *)
   match o with
@@ -547,6 +566,12 @@ Definition step_core (s : st) (o : op) : option M :=      (* outer None = Reject
           end
       | None => None
       end
+  | LoopEnd =>
+      (* Rejected (API preconditions of EventLoop, see docs/C12.md): the EventLoop must outlive the TcpClient; user code must
+         not keep a TcpConnectionPtr beyond its loop; the addTimerInLoop hand-off of a foreign ~TcpClient's runAfter is not
+         in flight (it would leak the Timer and with it the Connector: no crash; foreign destruction is F-13 anyway) *)
+      if alive s || is_some (find_user (conns s) 0%nat) || existsb is_addhack (pending s) then None
+      else Some (loop_end s)
   end.
 
 (* every op takes one millisecond of virtual time *)
@@ -620,6 +645,17 @@ Definition release_ok (s : st) : bool :=
   | None => true
   end.
 
+(* the loop outlives the cleanup: when the EventLoop is destroyed it owes the client nothing any more: the connector's
+   channel has been reset (resetChannel / stopInLoop have run) and every connection object is destroyed or has been through
+   connectDestroyed (forceCloseInLoop / connectDestroyed have run).  It holds in particular once the functor queue and the
+   timer queue have drained (`drained`, theorem drained_outlives), and for a client destroyed while it was idle. *)
+Definition conn_done (o : cobj) : bool :=
+  negb (calive o) || match cst o with CDisconnected => negb (creg o) | _ => false end.
+Definition loop_outlives_cleanup (s : st) : bool :=
+  negb (is_some (k_chan s)) && forallb conn_done (conns s).
+Definition drained (s : st) : bool :=
+  match pending s, timers s with [], [] => true | _, _ => false end.
+
 Definition contract (s : st) (o : op) : bool :=
   match o with
   | Connect | XConnectFlags => idle s
@@ -627,8 +663,12 @@ Definition contract (s : st) (o : op) : bool :=
   | Destroy => destroy_ok s
   | XDestroyRead | XDestroyRest | XDestroyInWrite => false        (* the theorems are about destruction on the loop thread *)
   | UserRelease => release_ok s
+  | LoopEnd => loop_outlives_cleanup s
   | _ => true
   end.
+(* `contract` without the hypothesis about the loop's life time (what the theorems assumed before REVIEW_E E-2) *)
+Definition contract_any_loop_end (s : st) (o : op) : bool :=
+  match o with LoopEnd => true | _ => contract s o end.
 (* what the property text allows (used by the generator; the difference to `contract` are the findings) *)
 Definition text_contract (s : st) (o : op) : bool :=
   match o with
